@@ -9,7 +9,9 @@ import BluetoeModel.Instants.Lemmas
   its instant, and peripheral latency never skips the instant."
 
   The model is the code with fixes/instants-01 (instant comparisons), -02 (copy of the deferred PDU)
-  and -03 (no rescheduling of the event a procedure was applied to).  All statements are over every
+  and -03 (no rescheduling of the event a procedure was applied to) and the parameter check of fix
+  timing-01 (`BluetoeModel.Timing.checkTiming`): a Connection Update whose parameters are refused
+  ends the link *at its instant* (`Proc.Refused`, `Outcome.refused`).  All statements are over every
   16 bit event counter and instant (wrap-around included), every peripheral latency ≤ 499 (the
   bound `check_timing_paremeters` enforces), every listen decision of the latency configuration,
   and every history of connection events (with arbitrary received PDUs), lost events and
@@ -98,10 +100,13 @@ theorem step_cancel (s : LL) (t : Nat) (hup : s.up = true) :
     step s (.cancel t) = cancelEvent s t := by simp [step, hup]
 
 /-- planning the next event right after an indication was accepted (or while it is pending) -/
-theorem plan_step (s : LL) (pr : Proc) (I : Nat) (listen : Bool) (hv : pr.Valid) (h : AcceptInv s pr I) :
+theorem plan_step (s : LL) (pr : Proc) (I : Nat) (listen : Bool) (hv : pr.Valid ∨ pr.Refused)
+    (h : AcceptInv s pr I) :
     ((finishEvent (planNext s listen)).up = true ∧ (finishEvent (planNext s listen)).pending = none
         ∧ (finishEvent (planNext s listen)).counter = I ∧ (finishEvent (planNext s listen)).lastLat = 1
         ∧ params (finishEvent (planNext s listen)) = carried (params s) pr)
+    ∨ ((finishEvent (planNext s listen)).up = false ∧ (finishEvent (planNext s listen)).counter = I
+        ∧ pr.Refused)
     ∨ (PendInv (finishEvent (planNext s listen)) pr I ∧ (finishEvent (planNext s listen)).counter ≠ I
         ∧ params (finishEvent (planNext s listen)) = params s
         ∧ room (finishEvent (planNext s listen)) + 1 ≤ dist s) := by
@@ -112,10 +117,12 @@ theorem plan_step (s : LL) (pr : Proc) (I : Nat) (listen : Bool) (hv : pr.Valid)
   have hds : dist s = sub16 I s.counter := by simp only [dist, hin]
   have hstep := advance_step s (planNext s listen) pr I (planAdvance s listen) hv hup hp hin hc hI rfl
     (by rw [← hds]; exact hk2)
-  rcases hstep with h1 | ⟨he, hne, hc1, hpos1, hd1⟩
+  rcases hstep with h1 | h2 | ⟨he, hne, hc1, hpos1, hd1⟩
   · left
     exact h1
-  · right
+  · right; left
+    exact h2
+  · right; right
     rw [he]
     have hll : (planNext s listen).lastLat = planAdvance s listen := rfl
     refine ⟨⟨hup, hp, hin, hc1, hI, hl, by rw [hll]; exact hk1, hpos1, ?_⟩, hne, rfl, ?_⟩
@@ -128,7 +135,8 @@ theorem plan_step (s : LL) (pr : Proc) (I : Nat) (listen : Bool) (hv : pr.Valid)
     link by supervision timeout, or plans the event `I` and applies exactly the carried
     parameters, or leaves the procedure pending, the parameters untouched, the planned event
     before `I`, with `room` decreased by every connection event -/
-theorem pending_step (s : LL) (pr : Proc) (I : Nat) (hv : pr.Valid) (h : PendInv s pr I) (i : In) :
+theorem pending_step (s : LL) (pr : Proc) (I : Nat) (hv : pr.Valid ∨ pr.Refused) (h : PendInv s pr I)
+    (i : In) :
     Outcome pr I s i (step s i) := by
   have hup := h.up
   have hp := h.pend
@@ -142,8 +150,9 @@ theorem pending_step (s : LL) (pr : Proc) (I : Nat) (hv : pr.Valid) (h : PendInv
     rw [e0]
     have hA : AcceptInv (enqueue s pdus) pr I :=
       ⟨hup, hp, hin, h.cnt, h.ilt, h.lat, h.pos, by have := h.far; simp only [room] at this; show dist s < 32767; omega⟩
-    rcases plan_step (enqueue s pdus) pr I listen hv hA with h1 | ⟨inv, hne, hpar, hm⟩
+    rcases plan_step (enqueue s pdus) pr I listen hv hA with h1 | h2 | ⟨inv, hne, hpar, hm⟩
     · exact Outcome.applied h1.1 h1.2.1 h1.2.2.1 h1.2.2.2.1 h1.2.2.2.2
+    · exact Outcome.refused h2.1 h2.2.1 h2.2.2
     · refine Outcome.waiting inv hne hpar ?_
       have hd : dist (enqueue s pdus) = dist s := rfl
       simp only [evCost, room] at *
@@ -155,8 +164,9 @@ theorem pending_step (s : LL) (pr : Proc) (I : Nat) (hv : pr.Valid) (h : PendInv
       rw [e0]
       have hstep := advance_step s (advanceOne s) pr I 1 hv hup hp hin h.cnt h.ilt rfl
         (by rw [← hds]; exact h.pos)
-      rcases hstep with h1 | ⟨he, hne, hc1, hpos1, hd1⟩
+      rcases hstep with h1 | h2 | ⟨he, hne, hc1, hpos1, hd1⟩
       · exact Outcome.applied h1.1 h1.2.1 h1.2.2.1 h1.2.2.2.1 h1.2.2.2.2
+      · exact Outcome.refused h2.1 h2.2.1 h2.2.2
       · rw [he]
         have hll : (advanceOne s).lastLat = s.lastLat := rfl
         have hfar := h.far
@@ -225,7 +235,9 @@ theorem pending_step (s : LL) (pr : Proc) (I : Nat) (hv : pr.Valid) (h : PendInv
 /-! ## 3. Whole histories -/
 
 /-- the meaning of "`pr` with instant `I`, pending in `s`, is handled correctly along the inputs":
-    at every radio callback either the link ends by supervision timeout, or the callback plans the
+    at every radio callback either the link ends by supervision timeout, or — only for a Connection
+    Update whose parameters `check_timing_paremeters` refuses — the link ends in the callback that
+    plans the event whose counter is `I`, or the callback plans the
     event whose counter is `I` and from then on exactly the carried parameters are in force (and
     the event can not be moved to an earlier one any more), or the procedure stays pending, the
     planned event is not `I`, the parameters in force are unchanged — and so on for the rest. -/
@@ -233,6 +245,7 @@ def Handled (pr : Proc) (I : Nat) : LL → List In → Prop
   | _, [] => True
   | s, i :: is =>
       ((step s i).up = false ∧ i = .lost ∧ s.timeout * 10000 ≤ s.sinceLast)
+      ∨ ((step s i).up = false ∧ (step s i).counter = I ∧ pr.Refused)
       ∨ ((step s i).up = true ∧ (step s i).pending = none ∧ (step s i).counter = I
           ∧ params (step s i) = carried (params s) pr ∧ ∀ t, cancelEvent (step s i) t = step s i)
       ∨ ((step s i).up = true ∧ (step s i).pending = some pr ∧ (step s i).instant = I
@@ -242,7 +255,8 @@ def Handled (pr : Proc) (I : Nat) : LL → List In → Prop
     event whose counter equals its instant" — for every valid procedure pending for any instant, and
     *every* history of connection events (any received PDUs, any listen decision = any peripheral
     latency configuration), lost events and event cancelations. -/
-theorem applied_at_instant_or_terminated (pr : Proc) (I : Nat) (hv : pr.Valid) (ins : List In) :
+theorem applied_at_instant_or_terminated (pr : Proc) (I : Nat) (hv : pr.Valid ∨ pr.Refused)
+    (ins : List In) :
     ∀ s, PendInv s pr I → Handled pr I s ins := by
   induction ins with
   | nil => intro s _; simp [Handled]
@@ -251,23 +265,27 @@ theorem applied_at_instant_or_terminated (pr : Proc) (I : Nat) (hv : pr.Valid) (
     simp only [Handled]
     cases pending_step s pr I hv h i with
     | ended hup hi hto => exact Or.inl ⟨hup, hi, hto⟩
+    | refused hup hc hr => exact Or.inr (Or.inl ⟨hup, hc, hr⟩)
     | applied hup hp hc hl hpar =>
-      exact Or.inr (Or.inl ⟨hup, hp, hc, hpar, fun t => cancel_noop _ t hl⟩)
+      exact Or.inr (Or.inr (Or.inl ⟨hup, hp, hc, hpar, fun t => cancel_noop _ t hl⟩))
     | waiting inv hne hpar hm =>
-      exact Or.inr (Or.inr ⟨inv.up, inv.pend, inv.inst, hne, hpar, ih _ inv⟩)
+      exact Or.inr (Or.inr (Or.inr ⟨inv.up, inv.pend, inv.inst, hne, hpar, ih _ inv⟩))
 
 /-- the hypothesis is established by the connection event in which the indication was accepted:
     that event's planning either reaches the instant at once or yields `PendInv` -/
-theorem accepted_then_planned (s : LL) (pr : Proc) (I : Nat) (listen : Bool) (hv : pr.Valid)
+theorem accepted_then_planned (s : LL) (pr : Proc) (I : Nat) (listen : Bool) (hv : pr.Valid ∨ pr.Refused)
     (h : AcceptInv s pr I) :
     ((finishEvent (planNext s listen)).pending = none ∧ (finishEvent (planNext s listen)).counter = I
         ∧ params (finishEvent (planNext s listen)) = carried (params s) pr)
+    ∨ ((finishEvent (planNext s listen)).up = false ∧ (finishEvent (planNext s listen)).counter = I
+        ∧ pr.Refused)
     ∨ (PendInv (finishEvent (planNext s listen)) pr I
         ∧ room (finishEvent (planNext s listen)) + 1 ≤ sub16 I s.counter) := by
   have hin := h.inst
-  rcases plan_step s pr I listen hv h with h1 | ⟨inv, _, _, hm⟩
+  rcases plan_step s pr I listen hv h with h1 | h2 | ⟨inv, _, _, hm⟩
   · exact Or.inl ⟨h1.2.1, h1.2.2.1, h1.2.2.2.2⟩
-  · refine Or.inr ⟨inv, ?_⟩
+  · exact Or.inr (Or.inl h2)
+  · refine Or.inr (Or.inr ⟨inv, ?_⟩)
     have hds : dist s = sub16 I s.counter := by simp only [dist, hin]
     omega
 
@@ -280,6 +298,19 @@ example : PendInv { init false 3 65533 10 with pending := some (.chanMap 0xffff)
 example : (Proc.chanMap 0xffff).Valid := by
   show 2 ≤ (usedChannels 0xffff).length
   decide
+
+-- interval 6 (7.5 ms), latency 0, timeout 72 (720 ms) is accepted; interval 664, latency 5 with the
+-- timeout 996 = (1 + 5) · 664 · 1.25 ms · 2 exactly (not strictly greater) is refused, as are
+-- interval 5 and WinSize 0
+example : (Proc.connUpdate ⟨5, 3, 6, 0, 72⟩).Valid := by
+  show ConnParams.valid ⟨5, 3, 6, 0, 72⟩ = true
+  decide
+
+example : (Proc.connUpdate ⟨4, 158, 664, 5, 996⟩).Refused ∧ (Proc.connUpdate ⟨1, 0, 5, 0, 72⟩).Refused
+    ∧ (Proc.connUpdate ⟨0, 0, 6, 0, 72⟩).Refused ∧ (Proc.connUpdate ⟨4, 158, 664, 5, 997⟩).Valid :=
+  ⟨⟨_, rfl, by decide⟩, ⟨_, rfl, by decide⟩, ⟨_, rfl, by decide⟩, by
+    show ConnParams.valid ⟨4, 158, 664, 5, 997⟩ = true
+    decide⟩
 
 /-! ## 4. "never stops the peripheral from processing received data for longer than until its instant" -/
 
@@ -297,7 +328,8 @@ def pendingAll (s : LL) : List In → Prop
     pass than `room s` ≤ distance to the instant − 1: after an indication at distance `d` was
     accepted, the procedure is applied (or the link ended) by the `(d − 1)`-th following connection
     event at the latest, whatever the latency, lost events and cancelations. -/
-theorem pending_blocks_at_most_until_instant (pr : Proc) (I : Nat) (hv : pr.Valid) (ins : List In) :
+theorem pending_blocks_at_most_until_instant (pr : Proc) (I : Nat) (hv : pr.Valid ∨ pr.Refused)
+    (ins : List In) :
     ∀ s, PendInv s pr I → pendingAll s ins → events ins + 1 ≤ room s := by
   induction ins with
   | nil =>
@@ -311,6 +343,7 @@ theorem pending_blocks_at_most_until_instant (pr : Proc) (I : Nat) (hv : pr.Vali
     obtain ⟨hu, hs, hrest⟩ := hall
     cases pending_step s pr I hv h i with
     | ended hup _ _ => rw [hup] at hu; exact absurd hu (by decide)
+    | refused hup _ _ => rw [hup] at hu; exact absurd hu (by decide)
     | applied _ hp _ _ _ => rw [hp] at hs; exact absurd hs (by decide)
     | waiting inv _ _ hm =>
       have := ih _ inv hrest
